@@ -24,6 +24,21 @@ func checkC11(e *Engine, r *Report) {
 	r.NotDecided = []string{"convergence of the resulting allocations to a state satisfying C01-C04 (value parts)", "containers the runtime reports as paused are neither created nor running and are ignored"}
 	r.Assumptions = []string{"the runtime's Synchronize lists every pod and container it knows"}
 
+	// the policies' Sync releases every container it is given to release and allocates every one it is given to allocate,
+	// in that order: the R1:sync-* obligations of the C09 check, adopted here (convergence after a restart rests on them)
+	{
+		sub := NewReport(e, "C09")
+		checkC09(e, sub)
+		n := 0
+		for _, o := range sub.Obls {
+			if strings.HasPrefix(o.Key, "R1:sync-") || strings.HasPrefix(o.Key, "R1:rm-sync-") {
+				n++
+				cp := *o
+				r.add(&cp)
+			}
+		}
+		r.MinInstances("policy Sync obligations (shared with C09)", n, 6)
+	}
 	// ---- rule 1 -------------------------------------------------------------------
 	if nrm := r.Anchor(pkgRM, "NewResourceManager"); nrm != nil {
 		sc, sp := e.Fn(pkgRM, "resmgr.setupCache"), e.Fn(pkgRM, "resmgr.setupPolicy")
